@@ -912,7 +912,11 @@ def judge(scn, run):
             violations.append({"rule": "C03.R1", "classifier": "constructor-fails:%s:%s:depth%d" % (v[1], shape, len(chain)), "detail": {"op": op, "verdict": v}})
             cls_of.pop(label, None)
             continue
-        if not (falsy & (eb | ea)):
+        if op["op"] == "call" and v[0] == "exc" and not v[2] and not raised_fault and not (falsy & (eb | ea)):
+            # nothing is wrong with the object and nothing was injected, yet calling the member fails (e.g. a wrapper put around a member
+            # that must not have one - static and class methods - cannot find ``self``)
+            violations.append({"rule": "C03.R1", "classifier": "call-fails:%s:%s" % (mk, v[1]), "detail": {"op": op, "class": cname, "verdict": v}})
+        elif not (falsy & (eb | ea)):
             # all relevant invariants true: R1
             if before != eb:
                 violations.append(
